@@ -105,7 +105,14 @@ Theorem C08_refresh_rank_hypothesis_exact : forall rho ps out cr mg o c,
 Proof. exact refresh_rank_hypothesis_exact. Qed.
 Print Assumptions C08_refresh_rank_hypothesis_exact.
 
-(* the repaired pass (one-element constants are no longer skipped) needs no rank hypothesis *)
+(* ---- history of the pass after the first repair.
+   variant 2 (commit fbce23b: one-element constants are no longer skipped, operands without a declared shape still
+   are): the full statement is REFUTED (Min(s without shape, scalar constant), s = [1,3] at run time, re-annotated [])
+   and holds when every operand has a declared shape and the annotations merge *)
+Theorem C08_refresh_variant2_refuted : ~ sound_statement refresh_fixed.
+Proof. exact refresh_fixed_refuted. Qed.
+Print Assumptions C08_refresh_variant2_refuted.
+
 Theorem C08_refresh_fixed_sound : forall rho ps out cr,
   operands_ok rho ps ->
   (forall o c, In (o, c) ps -> op_shape o <> None) ->
@@ -114,6 +121,36 @@ Theorem C08_refresh_fixed_sound : forall rho ps out cr,
   oshape_ok rho (refresh_fixed (map fst ps) out) cr.
 Proof. exact refresh_fixed_sound. Qed.
 Print Assumptions C08_refresh_fixed_sound.
+
+(* variant 3 (commit 560936b, the code in force: an operand without a declared shape makes the pass return - AFTER
+   `_copy_shape_dtype(outs[0], src)` has already written the source operand's shape): still REFUTED at full strength,
+   Add(x:[3], y without shape), y = [2,3] at run time, output annotated [2,3] is re-annotated [3] *)
+Theorem C08_refresh_variant3_refuted : ~ sound_statement refresh_v3.
+Proof. exact refresh_v3_refuted. Qed.
+Print Assumptions C08_refresh_variant3_refuted.
+Theorem C08_refresh_variant3_witness :
+  refresh_v3 (map fst refresh_witness_v3) (Some [DInt 2; DInt 3]) = Some [DInt 3]
+  /\ bcast_list (map snd refresh_witness_v3) = Some [2; 3]%nat.
+Proof. exact refresh_witness_v3_value. Qed.
+Print Assumptions C08_refresh_variant3_witness.
+
+(* exact hypothesis of variant 3: if some operand has no declared shape, the source operand (first operand that is not
+   a one-element constant) has none either; if all are declared, the annotations merge *)
+Theorem C08_refresh_variant3_sound_partial : forall rho ps out cr,
+  operands_ok rho ps -> bcast_list (map snd ps) = Some cr -> oshape_ok rho out cr ->
+  (has_unknown (map fst ps) = true ->
+     forall src, shape_source (map fst ps) = Some src -> op_shape src = None) ->
+  (has_unknown (map fst ps) = false -> broadcast_shape_dims (candidates_all (map fst ps)) <> None) ->
+  oshape_ok rho (refresh_v3 (map fst ps) out) cr.
+Proof. exact refresh_v3_sound_partial. Qed.
+Print Assumptions C08_refresh_variant3_sound_partial.
+
+(* variant 4 (proposed: decide first, write afterwards) is sound at FULL strength, without any hypothesis on declared
+   shapes, ranks or symbols: sound_statement f := forall rho ps out cr, operands_ok rho ps ->
+   bcast_list (map snd ps) = Some cr -> oshape_ok rho out cr -> oshape_ok rho (f (map fst ps) out) cr *)
+Theorem C08_refresh_variant4_sound : sound_statement refresh_v4.
+Proof. exact refresh_v4_sound. Qed.
+Print Assumptions C08_refresh_variant4_sound.
 
 (* (V) the checker run on every converted export: for every node with an exact shape rule whose operand annotations
    are fully static, the declared (fully static) output shape is the rule's result *)
